@@ -216,6 +216,15 @@ func (t *Transport) BlockWritesFrom(k int) {
 	t.mu.Unlock()
 }
 
+// BlockAgainAfter lets the next n Write calls (a blocked one included) through and blocks the ones after them.
+func (t *Transport) BlockAgainAfter(n int) {
+	t.mu.Lock()
+	t.blockWrites = false
+	t.blockFrom = t.writeCalls + n
+	t.cond.Broadcast()
+	t.mu.Unlock()
+}
+
 // UnblockWrites releases blocked writers.
 func (t *Transport) UnblockWrites() {
 	t.mu.Lock()
